@@ -111,7 +111,7 @@ struct Engine {
 	Pending pend;
 	std::vector<std::array<uint32_t, 3>> iv_allowed;
 	IdSet foreign;
-	bool weak = false, may_downgrade = false;
+	bool weak = false, may_downgrade = false, ts_desync = false, notify_recursion = false;
 	// established-wait bookkeeping (C17 c)
 	bool in_est_wait = false, est_first_recv = true, expect_query_next = false;
 	size_t notify_pending_bytes = 0;
